@@ -78,7 +78,9 @@ Inductive expr :=
 | ESliceFrom (a : expr) (k : Z)              (* a[k:], k >= 0 *)
 | ECallStar (f : string) (args : list expr) (star : expr)    (* f(args, *star): the elements of the sequence [star] are the last positional arguments *)
 | ECompT (k : comp_kind) (targets : list string) (it : expr) (body : expr)    (* a comprehension with a tuple target: e for a, b in it *)
-| ESliceToE (a : expr) (k : expr).           (* a[:k], k computed and >= 0 (a negative k counts from the end: outside the fragment) *)
+| ESliceToE (a : expr) (k : expr)            (* a[:k], k computed and >= 0 (a negative k counts from the end: outside the fragment) *)
+| ECallV (x : string) (args : list expr).    (* x(args), x a LOCAL VARIABLE holding a function value "<fn:NAME>" (npmax = np.nanmax; npmax(a)):
+                                                the call of NAME *)
 
 Inductive stmt :=
 | SAssign (targets : list string) (e : expr)     (* x = e ; a, b = e *)
@@ -529,6 +531,54 @@ Fixpoint max_ints (l : list val) : option Z :=
   | _ => None
   end.
 
+(** a[mask], mask a bool array of the same length: the elements where the mask is True (another length is
+    an IndexError in numpy: outside the fragment) *)
+Fixpoint mask_take (l m : list val) : option (list val) :=
+  match l, m with
+  | [], [] => Some []
+  | x :: l', VB b :: m' => option_map (fun r => if b then x :: r else r) (mask_take l' m')
+  | _, _ => None
+  end.
+
+(** a[mask] = vs: the k-th True position receives the k-th element of vs, which must have exactly as many
+    elements as the mask has True entries (numpy raises / broadcasts otherwise: outside the fragment) *)
+Fixpoint mask_put (l m vs : list val) : option (list val) :=
+  match l, m with
+  | [], [] => match vs with [] => Some [] | _ :: _ => None end
+  | x :: l', VB true :: m' => match vs with v :: vs' => option_map (cons v) (mask_put l' m' vs') | [] => None end
+  | x :: l', VB false :: m' => option_map (cons x) (mask_put l' m' vs)
+  | _, _ => None
+  end.
+
+Definition all_num (l : list val) : bool := forallb (fun v => match v with VZ _ | VQ _ => true | _ => false end) l.
+
+(** np.abs of a number *)
+Definition abs_val (v : val) : option val :=
+  match v with VZ z => Some (VZ (Z.abs z)) | VQ q => Some (VQ (Qabs q)) | _ => None end.
+
+(** the function value "<fn:NAME>" -> NAME *)
+Definition fn_name (v : val) : option string :=
+  match v with
+  | VS s => if String.prefix "<fn:" s && (4 <? String.length s)%nat &&
+               String.eqb (String.substring (String.length s - 1) 1 s) ">"
+            then Some (String.substring 4 (String.length s - 5) s) else None
+  | _ => None
+  end.
+
+(** dicts with string keys: an object of class "dict" whose fields are the items in INSERTION order, every key
+    once; d[k] = v replaces the value of an existing key in place and appends a new key (Python's rule) *)
+Fixpoint dict_set (fs : list (string * val)) (k : string) (v : val) : list (string * val) :=
+  match fs with
+  | [] => [(k, v)]
+  | (k', v') :: t => if String.eqb k k' then (k, v) :: t else (k', v') :: dict_set t k v
+  end.
+Fixpoint dict_of_pairs (l : list val) (acc : list (string * val)) : option (list (string * val)) :=
+  match l with
+  | [] => Some acc
+  | VT [VS k; v] :: t => dict_of_pairs t (dict_set acc k v)
+  | _ => None
+  end.
+
 (** builtins of the fragment, on exact numbers *)
 Definition call (f : string) (args : list val) : option (option val) :=   (* None: stuck; Some None: raises *)
   let is := String.eqb f in
@@ -560,11 +610,19 @@ Definition call (f : string) (args : list val) : option (option val) :=   (* Non
                 | Some (x :: t) => Some (Some (VQ (Qmin_list 0 (x :: t))))
                 | Some [] => Some None
                 | None => None end
+    | [VL l] => match unQ l with                    (* a list of numbers: numpy converts it to an array first *)
+                | Some (x :: t) => Some (Some (VQ (Qmin_list 0 (x :: t))))
+                | Some [] => Some None
+                | None => None end
     | _ => None
     end
   else if is "np.max" then
     match args with
     | [VA l] => match unQ l with
+                | Some (x :: t) => Some (Some (VQ (Qmax_list 0 (x :: t))))
+                | Some [] => Some None
+                | None => None end
+    | [VL l] => match unQ l with                    (* a list of numbers: numpy converts it to an array first *)
                 | Some (x :: t) => Some (Some (VQ (Qmax_list 0 (x :: t))))
                 | Some [] => Some None
                 | None => None end
@@ -742,6 +800,47 @@ Definition call (f : string) (args : list val) : option (option val) :=   (* Non
                          | Some [] => Some None
                          | None => None end
              | None => None end
+    | _ => None
+    end
+  (* --- phase 4 (b): variance_to_weights / maxabs --- *)
+  else if is "np.nanmin" || is "meth:min" then   (* PyLite numbers are never NaN: nanmin = min; a.min() = np.min(a) *)
+    match args with
+    | [VA l] | [VL l] => match unQ l with
+                | Some (x :: t) => Some (Some (VQ (Qmin_list 0 (x :: t))))
+                | Some [] => Some None
+                | None => None end
+    | _ => None
+    end
+  else if is "np.nanmax" || is "meth:max" then
+    match args with
+    | [VA l] | [VL l] => match unQ l with
+                | Some (x :: t) => Some (Some (VQ (Qmax_list 0 (x :: t))))
+                | Some [] => Some None
+                | None => None end
+    | _ => None
+    end
+  else if is "np.abs" then              (* element-wise on a 1-D array / a list or tuple of numbers (converted to an array) *)
+    match args with
+    | [VZ z] => Some (Some (VZ (Z.abs z)))
+    | [VQ q] => Some (Some (VQ (Qabs q)))
+    | [v] => match np_array v with
+             | Some (VA l) => match map_opt abs_val l with Some r => Some (Some (VA r)) | None => None end
+             | _ => None end
+    | _ => None
+    end
+  else if is "np.nan_to_num,copy=" then   (* a 1-D array of (finite, non-NaN: PyLite has no others) numbers: unchanged *)
+    match args with
+    | [VA l; VB _] => if all_num l then Some (Some (VA l)) else None
+    | _ => None
+    end
+  else if is "dict" then                (* {k: v for ..} / dict(pairs): the serialiser renders a dict comprehension as dict([(k, v) for ..]) *)
+    match args with
+    | [VL l] => match dict_of_pairs l [] with Some fs => Some (Some (VO "dict" fs)) | None => None end
+    | _ => None
+    end
+  else if is "np.ones_like,dtype=" then   (* np.ones_like(a, dtype="float64") of a 1-D array: float ones *)
+    match args with
+    | [VA l; VS d] => if all_scalar l && String.eqb d "float64" then Some (Some (VA (map (fun _ => VQ 1) l))) else None
     | _ => None
     end
   else None.
@@ -928,10 +1027,19 @@ Fixpoint eval (env : list (string * val)) (e : expr) {struct e} : option (option
           match take_idx l idx with
           | Some (Some r) => ret (VA r)
           | None => Some None                                                                   (* IndexError *)
-          | Some None => None
+          | Some None => match mask_take l idx with Some r => ret (VA r) | None => None end    (* a[bool mask] *)
           end
       | Some None, _ => Some None
       | Some (Some _), Some None => Some None
+      | Some (Some (VO c fs)), Some (Some k) =>
+          (* d[k] of a dict with string keys (a missing key: KeyError); x[k] of any other object is the
+             specification "getitem:<class>" of the [user] table *)
+          if String.eqb c "dict" then
+            match k with
+            | VS key => match lookup fs key with Some v => ret v | None => Some None end
+            | _ => None
+            end
+          else match user ("getitem:" ++ c) with Some g => g [VO c fs; k] | None => None end
       | _, _ => None
       end
   | ESliceTo a k =>
@@ -1001,6 +1109,27 @@ Fixpoint eval (env : list (string * val)) (e : expr) {struct e} : option (option
       | Some None, _ => Some None
       | Some (Some _), Some None => Some None
       | _, _ => None
+      end
+  | ECallV x args =>
+      match lookup env x with
+      | Some fv =>
+          match fn_name fv with
+          | Some f =>
+              match (fix go (l : list expr) : option (option (list val)) :=
+                       match l with
+                       | [] => Some (Some [])
+                       | a :: t => match eval env a with
+                                   | Some (Some v) => match go t with Some (Some r) => Some (Some (v :: r)) | o => o end
+                                   | Some None => Some None
+                                   | None => None end
+                       end) args with
+              | Some (Some vs) => match user f with Some g => g vs | None => call f vs end
+              | Some None => Some None
+              | None => None
+              end
+          | None => None
+          end
+      | None => None
       end
   end.
 
@@ -1142,6 +1271,30 @@ Fixpoint exec (s : stmt) (env : list (string * val)) {struct s} : outcome :=
           | None => Stuck end
       | Some _, Some None, _ => Raised
       | Some _, Some (Some _), Some None => Raised
+      | Some (VA l), Some (Some (VA m)), Some (Some v) =>      (* x[bool mask] = v, v a 1-D array with one element per True *)
+          match mask_take l m with
+          | Some old =>
+              match store_cast l (VA old) v with
+              | Some (VA vs) => match mask_put l m vs with Some l' => Normal ((x, VA l') :: env) | None => Stuck end
+              | _ => Stuck
+              end
+          | None => Stuck
+          end
+      | Some (VO c fs), Some (Some k), Some (Some v) =>
+          (* d[k] = v on a dict with string keys; x[k] = v on any other object is the specification
+             "setitem:<class>" of the [user] table, which returns the object's new state *)
+          if String.eqb c "dict" then
+            match k with
+            | VS key => Normal ((x, VO c (dict_set fs key v)) :: env)
+            | _ => Stuck
+            end
+          else match user ("setitem:" ++ c) with
+               | Some g => match g [VO c fs; k; v] with
+                           | Some (Some o') => Normal ((x, o') :: env)
+                           | Some None => Raised
+                           | None => Stuck end
+               | None => Stuck
+               end
       | _, _, _ => Stuck
       end
   | SAugItem x i op e =>
